@@ -55,8 +55,10 @@ CHECKS = {
         "text": ("Proved: canonical component text is returned unchanged by the component's requoter in either backend (all texts); every "
                  "requoter output is canonical; the literal (128 x 8) and decode (256 x 9) tables are exactly RFC 3986's by complete "
                  'sweeps; URL level: every canonical string with no authority or a plain lower-case ASCII host name is returned unchanged, '
-                 'str(URL(s)) = s (C04_canonical_url_unchanged, with a non-vacuity example; F14, F15 and F27 are explicit exclusions). '
-                 'PARTIAL: authorities with userinfo, ports, IDNA or IP hosts are validated on canonical URLs generated through the '
+                 'str(URL(s)) = s (C04_canonical_url_unchanged, with a non-vacuity example; F14, F15 and F27 are explicit exclusions), and '
+                 'so is every canonical string whose authority is [user[:password]@]name[:port] with canonical userinfo, a plain '
+                 'lower-case ASCII name and a non-default port (C04_canonical_url_unchanged_userinfo_port, with example). '
+                 'PARTIAL: authorities with IDNA or IP hosts are validated on canonical URLs generated through the '
                  'extracted canon predicate, each parsed right after its twins (same path under another authority / without one).'),
         "design_ref": "DESIGN.md section 7 C04",
     },
